@@ -23,7 +23,11 @@ type mnode struct {
 	arr    []*mnode
 	parent *mnode
 	dead   bool // removed from / replaced in its container
+	holes  bool // array: an element other than the last one was deleted (a tombstone sits between live elements)
 }
+
+// c03BatchOverHole counts successful multi-value updates of arrays that had an inner deletion.
+var c03BatchOverHole int
 
 func buildNode(v interface{}, parent *mnode) *mnode {
 	switch x := v.(type) {
@@ -82,7 +86,7 @@ func (n *mnode) typeOf() float64 {
 
 // cloneTree deep-copies a tree and returns the old->new node mapping.
 func cloneTree(n *mnode, parent *mnode, mp map[*mnode]*mnode) *mnode {
-	c := &mnode{kind: n.kind, val: n.val, parent: parent, dead: n.dead}
+	c := &mnode{kind: n.kind, val: n.val, parent: parent, dead: n.dead, holes: n.holes}
 	mp[n] = c
 	if n.kind == 'O' {
 		c.obj, c.tomb = map[string]*mnode{}, map[string]*mnode{}
@@ -108,6 +112,7 @@ type docModel struct {
 	root    *mnode
 	handles []docHandle
 	inTx    bool
+	focus   bool // array-focused case: most path calls go to one planted array
 }
 
 func newDocModel() *docModel {
@@ -125,7 +130,7 @@ func (d *docModel) bind(dt iface.Datatype) {
 
 func (d *docModel) clone() *docModel {
 	mp := map[*mnode]*mnode{}
-	c := &docModel{root: cloneTree(d.root, nil, mp)}
+	c := &docModel{root: cloneTree(d.root, nil, mp), focus: d.focus}
 	for _, h := range d.handles {
 		nn := mp[h.n]
 		if nn == nil {
@@ -328,6 +333,9 @@ func (d *docModel) expectOn(n *mnode, c sim.Call) expectation {
 			ex.class, ex.why = either, "nested null"
 		}
 		ex.apply = func() {
+			if len(c.Vals) >= 2 && n.holes {
+				c03BatchOverHole++
+			}
 			for i, v := range c.Vals {
 				n.arr[c.Pos+i].dead = true
 				n.arr[c.Pos+i] = mk(v, n)
@@ -341,6 +349,9 @@ func (d *docModel) expectOn(n *mnode, c sim.Call) expectation {
 		old := n.arr[c.Pos]
 		return expectation{class: mustOK, ret: old.view(), checkRet: true, ops: 1, apply: func() {
 			old.dead = true
+			if c.Pos < len(n.arr)-1 {
+				n.holes = true
+			}
 			n.arr = append(append([]*mnode{}, n.arr[:c.Pos]...), n.arr[c.Pos+1:]...)
 		}}
 	case "DeleteManyInArray":
@@ -354,6 +365,9 @@ func (d *docModel) expectOn(n *mnode, c sim.Call) expectation {
 		return expectation{class: mustOK, ret: olds, checkRet: true, ops: 1, apply: func() {
 			for i := 0; i < c.N; i++ {
 				n.arr[c.Pos+i].dead = true
+			}
+			if c.N > 0 && c.Pos+c.N < len(n.arr) {
+				n.holes = true
 			}
 			n.arr = append(append([]*mnode{}, n.arr[:c.Pos]...), n.arr[c.Pos+c.N:]...)
 		}}
@@ -481,10 +495,13 @@ func genCallOn(rt *rapid.T, kind byte, keys []string, size int, paths []string) 
 		pool = objCalls
 	case kind == 'A':
 		pool = arrCalls
+	case kind == 'F':
+		// array-focused: mutate one array again and again (batches across earlier deletions and updates)
+		pool = []string{"InsertToArray", "UpdateManyInArray", "UpdateManyInArray", "UpdateManyInArray", "DeleteInArray", "DeleteInArray", "DeleteManyInArray", "GetManyFromArray", "GetFromArray"}
 	default:
 		pool = anyCalls
 	}
-	if rapid.IntRange(0, 4).Draw(rt, "anycall") == 0 {
+	if kind != 'F' && rapid.IntRange(0, 4).Draw(rt, "anycall") == 0 {
 		pool = anyCalls
 	}
 	m := rapid.SampledFrom(pool).Draw(rt, "method")
@@ -496,10 +513,23 @@ func genCallOn(rt *rapid.T, kind byte, keys []string, size int, paths []string) 
 		c.Key = key
 	case "InsertToArray", "UpdateManyInArray":
 		c.Pos, c.Vals = pos, genDocBatch(rt, "vs")
+		if m == "UpdateManyInArray" && size >= 2 && rapid.Bool().Draw(rt, "fit") {
+			// a batch that fits: ranges that cross earlier deletions / updates must be reachable
+			c.Pos = rapid.IntRange(0, size-2).Draw(rt, "fitpos")
+			cnt := rapid.IntRange(2, minInt(size-c.Pos, 4)).Draw(rt, "fitn")
+			c.Vals = c.Vals[:0]
+			for i := 0; i < cnt; i++ {
+				c.Vals = append(c.Vals, genDocVal(rt, fmt.Sprintf("fit.%d", i)))
+			}
+		}
 	case "DeleteInArray", "GetFromArray":
 		c.Pos = pos
 	case "DeleteManyInArray", "GetManyFromArray":
 		c.Pos, c.N = pos, n
+		if size >= 2 && rapid.Bool().Draw(rt, "fit") {
+			c.Pos = rapid.IntRange(0, size-2).Draw(rt, "fitpos")
+			c.N = rapid.IntRange(2, size-c.Pos).Draw(rt, "fitn")
+		}
 	case "GetByPath":
 		c.Key = rapid.SampledFrom(append([]string{"", "/", "nope", "a/0/zz", "0"}, paths...)).Draw(rt, "path")
 	}
@@ -525,6 +555,37 @@ func (d *docModel) allPaths() []string {
 
 func (d *docModel) genPathCall(rt *rapid.T) sim.Call {
 	cs := d.containers()
+	bigArr := false
+	for _, c := range cs {
+		if c.isArr && c.size >= 3 {
+			bigArr = true
+		}
+	}
+	if d.focus && bigArr && rapid.IntRange(0, 3).Draw(rt, "focus") > 0 {
+		var arrs []containerRef
+		for _, c := range cs {
+			if c.isArr && c.size >= 3 {
+				arrs = append(arrs, c)
+			}
+		}
+		cr := arrs[rapid.IntRange(0, len(arrs)-1).Draw(rt, "focus.arr")]
+		c := genCallOn(rt, 'F', cr.keys, cr.size, nil)
+		c.Path = cr.path
+		return c
+	}
+	if !bigArr && (d.focus || rapid.IntRange(0, 3).Draw(rt, "seedarray") == 0) {
+		// arrays grow slowly under uniform call choice: plant one with 4-7 elements (some nested)
+		n := rapid.IntRange(4, 7).Draw(rt, "seedarray.n")
+		var vs []sim.Val
+		for i := 0; i < n; i++ {
+			if rapid.IntRange(0, 3).Draw(rt, fmt.Sprintf("seedarray.nested%d", i)) == 0 {
+				vs = append(vs, []sim.Val{sim.Obj(sim.KV{K: "x", V: sim.I(int64(i))}), sim.Arr(sim.S("p"), sim.S("q")), sim.Obj()}[i%3])
+			} else {
+				vs = append(vs, sim.S(fmt.Sprintf("s%d", i)))
+			}
+		}
+		return sim.Call{M: "PutToObject", Key: rapid.SampledFrom([]string{"L", "a", "arr"}).Draw(rt, "seedarray.key"), Vals: []sim.Val{sim.Arr(vs...)}}
+	}
 	cr := cs[rapid.IntRange(0, len(cs)-1).Draw(rt, "container")]
 	kind := byte('O')
 	if cr.isArr {
@@ -748,4 +809,11 @@ func (d *docModel) callKeeping(m *c03Machine, doc orda.Document, c sim.Call, ret
 // checkCallWith is checkCall with a precomputed expectation.
 func (m *c03Machine) checkCallWith(c sim.Call, res sim.Result, emitted int, ex expectation) error {
 	return m.checkCallEx(c, res, emitted, false, ex)
+}
+
+func minInt(a, b int) int {
+	if a < b {
+		return a
+	}
+	return b
 }
